@@ -160,7 +160,9 @@ class Decorator:
                 N[i - 1]['e'] = self.test(b, scope)
             else:
                 N[i - 1]['tgt'] = [r.choice(self.names)]
-                N[i - 1]['e'] = b.I(self.reads(b, scope))
+                if self.contexts and r.random() < 0.2:
+                    N[i - 1]['tgt'] = [r.choice(self.names), r.choice(self.names)]
+                N[i - 1]['e'] = b.I(self.reads(b, scope), pairs=len(N[i - 1]['tgt']) == 2)
             body = self.block(b, fn, scope)
             if r.random() < 0.2:     # a loop directive must be the first statement of the loop body
                 body = [b.node(kind='directive', fn=fn, k=100 + b.newk())] + body
